@@ -358,10 +358,12 @@ def eval_model(fam, cases):
     return [tuple((r.split("\t") + [""])[:2]) for r in rows]
 
 
-def shrink(fam, case, differs, budget=400):
+def shrink(fam, case, differs, budget=400, extra_cands=None):
     """Greedy delta-debugging on the tokens of a case line: deletes elements of
     comma-separated tokens and characters of script tokens while impl and model
-    still differ (as judged by `differs(case, impl, model, spec)`)."""
+    still differ (as judged by `differs(case, impl, model, spec)`).
+    `extra_cands(case) -> [case]` (cfg key `shrink_candidates`) lets a family propose
+    structural reductions of its own case syntax; they are tried first."""
     best = case
     evals = 0
     progress = True
@@ -381,6 +383,8 @@ def shrink(fam, case, differs, budget=400):
             elif re.fullmatch(r"[a-z]{2,}", t) and i > 1:
                 for j in range(len(t)):
                     cands.append(" ".join(toks[:i] + [t[:j] + t[j + 1:]] + toks[i + 1:]))
+        if extra_cands:
+            cands = list(extra_cands(best)) + cands
         cands = [c for c in dict.fromkeys(cands) if c != best][:200]
         if not cands:
             break
@@ -388,7 +392,7 @@ def shrink(fam, case, differs, budget=400):
         mo = eval_model(fam, cands)
         evals += len(cands)
         for c, a, (m, s) in zip(cands, im, mo):
-            if a.startswith("BADCASE") or m.startswith("BADCASE"):
+            if not a or not m or a.startswith("BADCASE") or m.startswith("BADCASE"):   # "" = a side produced no line
                 continue
             if differs(c, a, m, s) and len(c) < len(best):
                 best = c
@@ -541,7 +545,8 @@ def run_property(cfg, tier, seed):
     """Generic check: proof audit + correspondence + classification + evidence.
     cfg keys: id, family, allow_axioms, nshards{tier}, nontrivial(case, impl), rule,
     trusted (extra trusted-base lines), assumptions, known(case, impl, model, spec) -> finding id|None,
-    differs (optional), extra_args(tier) (optional), post(res) (optional extra checks)."""
+    differs (optional), extra_args(tier) (optional), post(res) (optional extra checks),
+    shrink_candidates(case) -> [case] and shrink_budget (optional, see `shrink`)."""
     t0 = time.time()
     pid = cfg["id"]
     fam = cfg["family"]
@@ -610,7 +615,8 @@ def run_property(cfg, tier, seed):
             small = case
             try:
                 if kind == "impl-vs-model":
-                    small = shrink(fam, case, differs)
+                    small = shrink(fam, case, differs, budget=cfg.get("shrink_budget", 400),
+                                   extra_cands=cfg.get("shrink_candidates"))
             except Exception as e:  # shrinking is best effort
                 log("shrink failed:", e)
             im = eval_impl(fam, [small])[0] if small != case else impl
